@@ -54,6 +54,12 @@ func BFS(t *T, nOps, maxDepth int, maxStates int64, step func(ct *T, path []int)
 					mu.Lock()
 					lo := cursor
 					cursor += 32
+					if lo < total && PastDeadline() {
+						st.Capped = true
+						t.Capped()
+						cursor = total
+						lo = total
+					}
 					mu.Unlock()
 					if lo >= total {
 						return
@@ -70,6 +76,7 @@ func BFS(t *T, nOps, maxDepth int, maxStates int64, step func(ct *T, path []int)
 						if _, ok := seen[k]; !ok {
 							if maxStates > 0 && st.States >= maxStates {
 								st.Capped = true
+								t.Capped()
 							} else {
 								seen[k] = struct{}{}
 								st.States++
